@@ -13,6 +13,15 @@ def units(tier, seed):
     us = cases.wf_units(tier, seed)
     for u in us:
         u["seed"] = seed
+    # model validation on real traffic: the bundled captures, message by message
+    import glob
+    import os
+
+    from .. import loader as _l
+
+    files = sorted(glob.glob(os.path.join(_l.SRC, "tpmstream", "data", "*.pcap")))
+    for i in range(0, len(files), 8):
+        us.append({"kind": "corpus", "label": "corpus:%d" % i, "files": files[i : i + 8], "seed": seed, "k": 0})
     return us
 
 
@@ -68,9 +77,47 @@ def check_case(acc, case):
         acc.violation({"clause": "bytes-pulled", "root": case.root}, d, f"pulled {r.pulled} of {len(case.b)} bytes")
 
 
+def corpus_unit(acc, unit):
+    """every message of the bundled captures: the reference decoder must accept what the implementation accepts and
+    produce the same events (validates the model on real traffic; also a C01 check on 5 594 real encodings)"""
+    import io
+
+    from .. import oracle
+    from ..ref.decode import decode
+
+    loader.load()
+    from tpmstream.io.pcapng.marshal import tpm_pkgs_from_pcap_file
+
+    for path in unit["files"]:
+        with open(path, "rb") as f:
+            pkgs = list(tpm_pkgs_from_pcap_file(io.BytesIO(f.read())))
+        cc = enc = None
+        for i, m in enumerate(pkgs):
+            loader.cache_clear()
+            root = "Command" if i % 2 == 0 else "Response"
+            kw = {} if root == "Command" else {"cc": cc, "enc": enc}
+            ref, r, probs = oracle.compare_strict(root, m, **kw)
+            acc.count("corpus_messages")
+            acc.count("executions")
+            acc.count("outcome:" + r.kind)
+            if root == "Command":
+                cc, enc = (ref.msgs[-1][2], ref.msgs[-1][3]) if ref.kind == "Done" and ref.msgs else (ref.last_cc, False)
+            d = {"harness": "wellformed", "root": root, "cc": kw.get("cc"), "enc": bool(kw.get("enc")), "input": m.hex(), "file": path.split("/")[-1], "index": i}
+            for p in probs:
+                if p["clause"] in ("outcome", "details", "events", "escape"):
+                    acc.violation({"clause": "corpus:" + p["clause"], "root": root, "expected": p.get("expected"), "observed": p.get("observed")}, d, f"{path.split('/')[-1]} message {i}: " + p["detail"], size=len(m))
+            if r.kind == "Done" and ref.kind == "Done":
+                acc.count("corpus_accepted_by_both")
+                acc.shape((root, shape(ref.events)))
+    acc.sample({"unit": unit["label"], "files": [p.split("/")[-1] for p in unit["files"]][:3]}, cap=1)
+    return acc
+
+
 def run_unit(unit):
     acc = Acc()
     loader.load()
+    if unit["kind"] == "corpus":
+        return corpus_unit(acc, unit)
     cases.explore_unit(unit, unit["seed"], lambda c: check_case(acc, c), acc)
     if len(acc.samples) < 1:
         c = cases.replay_case(unit, unit["seed"], ())
@@ -91,6 +138,8 @@ def finish(acc, tier, seed):
         "rule": "executions = complete runs of the generator (one well-formed encoding each), all choice vectors with <= k deviations per root; states = choice points visited, transitions = alternatives expanded; distinct = distinct (root, event path/type shape)",
         "bounds": {"roots_by_k": {k: v for k, v in acc.n.items() if str(k).startswith("k:")}, "counts": [0, 1, 2], "buffer_sizes": [0, 1, 2], "max_sessions": 3},
         "model_self_checks": acc.n["model_self_checks"],
+        "corpus_messages": acc.n["corpus_messages"],
+        "corpus_accepted_by_both": acc.n["corpus_accepted_by_both"],
         "caps_hit": acc.n["caps_hit"],
         "exhaustive": acc.n["caps_hit"] == 0,
     }
